@@ -10,11 +10,36 @@
 -/
 import GoPipeline.Model.OMap
 import GoPipeline.Gen.Globals
+import GoPipeline.Gen.Observers
 namespace GoPipeline.OMap
 
 /-- No statement in any function body assigns to, increments or takes the address of a package-level
     variable (so the only shared state are values reachable from the caller's own objects). -/
 theorem C19_no_global_writes : Gen.globalWrites = [] ∧ Gen.globalsRecognised = true := by decide
+
+/-- The functions the library offers as observers of a caller's object: the lookups and iteration of the
+    ordered map, equality and the recursive plain-map view, every `MarshalJSON` / `MarshalYAML`, the matrix
+    validators, plugin source expansion, `Sign`, `Verify`, the signed-field accessors of a command step and the
+    option plumbing (`WithEnv` adopts the caller's map). -/
+def expectedObservers : List String :=
+  ["ordered.Map.Len", "ordered.Map.IsZero", "ordered.Map.Get", "ordered.Map.Contains", "ordered.Map.Range",
+   "ordered.Map.ToMap", "ordered.Map.MarshalJSON", "ordered.Map.MarshalYAML", "ordered.Equal", "ordered.ToMapRecursive",
+   "pipeline.Pipeline.MarshalJSON", "pipeline.CommandStep.MarshalJSON", "pipeline.GroupStep.MarshalJSON",
+   "pipeline.Plugin.MarshalJSON", "pipeline.Plugin.MarshalYAML", "pipeline.Plugin.FullSource",
+   "pipeline.Matrix.MarshalJSON", "pipeline.Matrix.MarshalYAML", "pipeline.Matrix.validatePermutation",
+   "pipeline.MatrixAdjustment.ShouldSkip", "pipeline.MatrixSetup.MarshalJSON", "pipeline.MatrixSetup.MarshalYAML",
+   "pipeline.UnknownStep.MarshalJSON", "pipeline.UnknownStep.MarshalYAML",
+   "signature.Sign", "signature.Verify", "signature.CommandStepWithInvariants.SignedFields",
+   "signature.CommandStepWithInvariants.ValuesForFields", "signature.envOption.apply", "signature.configureOptions"]
+
+/-- In none of the observer functions does a statement write through the receiver or a parameter: no assignment,
+    increment or `delete` whose target is reached from one of them (through selectors, indices, slices,
+    dereferences, type assertions, conversions, range values or local aliases of these), no in-place mutator
+    (`sort.*`, `slices.Sort*` / `Compact*` / `Reverse` / `Insert`, `maps.DeleteFunc` / `Copy`, `clear`, `copy`, `append`)
+    applied to such a value, no mutating method of the ordered map called on it — a syntactic over-approximation
+    regenerated from the source (Gen/Observers); and every expected observer was found under its name. -/
+theorem C19_observers_do_not_write_through_arguments :
+    Gen.observerWrites = [] ∧ expectedObservers.all (Gen.observersFound.contains ·) = true := by decide
 
 variable {V : Type}
 
